@@ -84,7 +84,11 @@ def plain(x):
     if isinstance(x, (list, tuple)):
         return ("S", [plain(v) for v in x])
     if mutgen.is_set(x):
-        return ("T", sorted((plain(v) for v in x), key=repr))
+        def skey(v):
+            if isinstance(v, (int, float)):
+                return ("n", float(v), "")
+            return ("s", 0.0, str(v))
+        return ("T", sorted((plain(v) for v in x), key=skey))
     if hasattr(x, "value") and type(x).__name__ == "TaggedScalar":
         return x.value
     return x
